@@ -130,8 +130,15 @@ func (p *Peering) checkConnect(w *mgr.WorkerCtx, connected map[string]netip.Addr
 					continue connectToNearest
 				}
 
+				// Get the public info once: a new announcement of the router replaces it,
+				// possibly with nothing, while we are busy connecting.
+				info := near.PublicInfo
+				if info == nil {
+					continue connectToNearest
+				}
+
 				// Check if we are already connected to a peer with any of the advertised IANA IPs.
-				for _, iana := range near.PublicInfo.IANA {
+				for _, iana := range info.IANA {
 					if p.GetLinkByRemoteHost(iana) != nil {
 						// Aleady connected to this host, but to another router.
 						// This is common when a Mycoria router changes ID.
@@ -140,7 +147,7 @@ func (p *Peering) checkConnect(w *mgr.WorkerCtx, connected map[string]netip.Addr
 				}
 
 				// Attempt to connect.
-				for _, listener := range near.PublicInfo.Listeners {
+				for _, listener := range info.Listeners {
 					u, err := m.ParsePeeringURL(listener)
 					if err != nil {
 						w.Warn(
@@ -153,7 +160,7 @@ func (p *Peering) checkConnect(w *mgr.WorkerCtx, connected map[string]netip.Addr
 					}
 
 					// Try to connect on all available Domains/IPs.
-					for _, iana := range near.PublicInfo.IANA {
+					for _, iana := range info.IANA {
 						u.Domain = iana
 						_, err = p.PeerWith(u, netip.Addr{})
 						if err == nil {
